@@ -19,6 +19,7 @@ CPP_PAIRS = ['ace_time::ExtendedZoneProcessor::getMostRecentPriorYear(signed cha
 def run(R):
     common.load_ir(R)
     obs = check.verify_functions(R, CPP_PAIRS)
+    obs += common.avr_pass(R, CPP_PAIRS)
     from vc.pyvc import PyOutOfReach
     try:
         pyobs = pyref.python_pair_obligations()
